@@ -215,6 +215,51 @@ func runC07(c *Ctx) {
 		}
 	}
 
+	// ---- C07.R: a failed fetch surfaces as an error, never as (nil response, nil error)
+	c.Rule("C07.R", "fetch helper: the error returned with a possibly-nil response comes from the same client.Do call; the forwarder is bound to the uncancellable fetched request", 2)
+	if f := c.need(p, "C07.R", "agent/utils.getRequestWithRetries"); f != nil {
+		do := c.UniqueCall("C07.R", p, f, false, "(*net/http.Client).Do")
+		if do != nil {
+			bad := ""
+			for _, r := range Returns(f) {
+				v0, v1 := ReturnValue(r, 0), ReturnValue(r, 1)
+				mayNilResp, errFromDo, errConstNil := false, false, false
+				for _, x := range Roots(v0) {
+					if IsNilConst(x) {
+						mayNilResp = true
+					}
+				}
+				for _, x := range Roots(v1) {
+					if e, ok := x.(*ssa.Extract); ok && e.Tuple == do.(ssa.Value) && e.Index == 1 {
+						errFromDo = true
+					}
+					if IsNilConst(x) {
+						errConstNil = true
+					}
+				}
+				_ = errConstNil
+				if mayNilResp && !errFromDo {
+					// allowed only if the error is definitely non-nil: the early return of the NewRequest error
+					guarded := false
+					for _, g := range GuardingIfs(r) {
+						if v, s, ok := ErrNilTest(g.If); ok && g.Succ == s && SameValue(v, v1) {
+							guarded = true
+						}
+					}
+					if !guarded {
+						bad = "the return at " + p.Pos(r.Pos()) + " can hand back a nil response together with an error value that does not come from the client.Do call (" + PathOf(v1) + ")"
+					}
+				}
+			}
+			c.Check("C07.R", "fetch:nil-response-implies-do-error", p, f.Pos(), bad == "", "whenever the returned response may be nil, the returned error is the one of the same client.Do call (or a tested non-nil error)", "getRequestWithRetries: "+bad+": when every attempt fails without an HTTP response the caller gets (nil, nil), dereferences the nil response in the worker goroutine (no recover) and the whole agent dies")
+		}
+	}
+	if f := c.need(p, "C07.R", "agent.forwardRequest"); f != nil {
+		if g := c.UniqueCall("C07.R", p, f, false, ModPath+"/agent/utils.NewResponseForwarder"); g != nil {
+			c.ArgIs("C07.R", "forwarder:bound-to-fetched-request", p, g, 4, "the response forwarder watches the context of the fetched request itself (never cancelled by the agent), so an error answer (502) produced after a backend failure is still published", P(f, 2)+".Contents")
+		}
+	}
+
 	// ---- C07.O: the dedup LRU stays in the polling goroutine (= C04.O)
 	c.Rule("C07.O", "the (not goroutine-safe) dedup LRU is confined to the polling goroutine (= C04.O)", 1)
 	if f := c.need(p, "C07.O", "agent.pollForNewRequests"); f != nil {
